@@ -1716,6 +1716,14 @@ class Interp:
     def _ext_call(self, name, args, kwargs):
         if name in self.ext_stubs:
             return self.ext_stubs[name](self, args, kwargs)
+        if name == "ast.parse" and args and isinstance(args[0], str):
+            # parsing a literal text is constant folding: the host parser is the reference
+            try:
+                return ast.parse(args[0], mode=kwargs.get("mode", args[2] if len(args) > 2 else "exec"))
+            except SyntaxError as ex:
+                raise PyRaise(ExcVal("SyntaxError", (str(ex),)))
+            except (ValueError, RecursionError, MemoryError) as ex:
+                raise PyRaise(ExcVal(type(ex).__name__, (str(ex),)))
         if name in ("operator.attrgetter", "attrgetter") and len(args) == 1 and isinstance(args[0], str):
             attr_ = args[0]
 
